@@ -5,7 +5,7 @@ from framework import lean_obligations
 
 PROFILE = gen.Profile(
     p_nested=1.0, max_nested_rows=5, p_raise=0.1, p_validator_raise=0.05, p_rtc_off=0.25,
-    p_unknown_event=0.05, n_ops=(2, 8), p_coro=0.0,
+    p_unknown_event=0.05, n_ops=(2, 8), p_coro=0.0, p_allow=0.5,
     p_group=dict(validators=0.05, cond=0.2, unless=0.1, before=0.4, on=0.4, after=0.4, enter=0.45, exit=0.4),
 )
 PROFILE_ASYNC = gen.Profile(**{**PROFILE.__dict__, "p_coro": 0.5, "drivers": ("facade", "loop"), "p_rtc_off": 0.0,
@@ -126,10 +126,10 @@ def run(ctx):
     ctx.coverage["rule"] = ("seeded random machines (1-6 states, nested sends placed in any action group "
                             "incl. initial enter, rtc on/off, sync/async); non-trivial = at least one nested "
                             "send was actually issued from a callback; distinct = hash of the scenario text")
-    n = engine_check(ctx, PROFILE, 700, 12000, nontrivial, monitor=monitor, post=post, tag="C03s",
+    n = engine_check(ctx, PROFILE, 1100, 12000, nontrivial, monitor=monitor, post=post, tag="C03s",
                      extra_scns=chain_scenarios(ctx))
     cov1 = dict(ctx.coverage)
-    engine_check(ctx, PROFILE_ASYNC, 300, 6000, nontrivial, monitor=monitor, tag="C03a", mutate=mutate_async)
+    engine_check(ctx, PROFILE_ASYNC, 450, 6000, nontrivial, monitor=monitor, tag="C03a", mutate=mutate_async)
     for k in ("evaluations", "distinct_nontrivial", "traces_validated_against_impl", "disagreements", "monitor_failures"):
         ctx.coverage[k] = ctx.coverage.get(k, 0) + cov1.get(k, 0)
     ctx.coverage["distribution_sync"] = cov1.get("distribution")
